@@ -394,6 +394,28 @@ def native_equivalence(seed, tier):
             and abs(a.score(X) - b.score(X, M)) < 1e-12
         obs.append(Ob(f"{cls.__name__}: precomputed {name} matrix == naming {name} (same weights, labels, score)", PROVED if ok else REFUTED, "native", "B",
                       {"replayed": True}, fn=f"{cls.__module__}.{cls.__name__}.fit"))
+    # ... and the same PATH: histories and returned weights, with several training batches and several validation blocks per epoch
+    import warnings
+    from gemclus.sparse import SparseMLPMMD
+    for cls, name, params, extra in ((SparseLinearMMD, "rbf", dict(gamma=0.4), {}), (SparseMLPMMD, "laplacian", None, dict(n_hidden_dim=3))):
+        for bs in (5, None):
+            pk = {"kernel_params": params} if params else {}
+            kw = dict(n_clusters=2, max_iter=4, random_state=seed, batch_size=bs, alpha=0.3, learning_rate=0.05, **extra)
+            pa = dict(alpha_multiplier=1.6, min_features=1)
+            try:
+                with warnings.catch_warnings():
+                    warnings.simplefilter("ignore")
+                    ra = cls(kernel=name, **pk, **kw).path(X, **pa)
+                    M = pairwise_kernels(X, metric=name, **(params or {}))
+                    rb = cls(kernel="precomputed", **kw).path(X, M, **pa)
+                same_hist = all(len(u) == len(v) and np.allclose(np.asarray(u, float), np.asarray(v, float), rtol=1e-12, atol=1e-12, equal_nan=True)
+                                for u, v in zip(ra[1:], rb[1:]))
+                same_w = all(np.array_equal(u, v) for u, v in zip(ra[0], rb[0]))
+                ok, det = same_hist and same_w, {"scores named": [float(x) for x in ra[1]][:4], "scores precomputed": [float(x) for x in rb[1]][:4]}
+            except Exception as e:
+                ok, det = False, {"exception": repr(e)[:300]}
+            obs.append(Ob(f"{cls.__name__}.path(batch_size={bs}): precomputed {name} matrix == naming {name} (same histories, same best weights)",
+                          PROVED if ok else REFUTED, "native", "B", {**det, "replayed": True}, fn="gemclus.sparse._base_sparse._path"))
     a = Kauri(max_clusters=3, kernel="rbf", random_state=seed).fit(X)
     M = pairwise_kernels(X, metric="rbf")
     b = Kauri(max_clusters=3, kernel="precomputed", random_state=seed).fit(X, M)
